@@ -1812,10 +1812,10 @@ fn c16_tape_first_block_does_not_depend_on_read_chunking() {
     let sel: u8 = kani::any();
     kani::assume(sel < 4);
     match sel {
-        0 => tape_chunk_case(0, false),
-        1 => tape_chunk_case(1, false),
-        2 => tape_chunk_case(2, false),
-        _ => tape_chunk_case(3, false),
+        0 => tape_chunk_first_block(0),
+        1 => tape_chunk_first_block(1),
+        2 => tape_chunk_first_block(2),
+        _ => tape_chunk_first_block(3),
     }
 }
 
@@ -1833,31 +1833,41 @@ fn c16_tape_blocks_do_not_depend_on_read_chunking() {
     let sel: u8 = kani::any();
     kani::assume(sel < 7);
     match sel {
-        0 => tape_chunk_case(0, true), // one byte per read
-        1 => tape_chunk_case(1, true), // split inside the first length word
-        2 => tape_chunk_case(2, true),
-        3 => tape_chunk_case(3, true), // split inside block 1
-        4 => tape_chunk_case(4, true),
-        5 => tape_chunk_case(5, true), // split inside the second length word
-        _ => tape_chunk_case(6, true),
+        0 => tape_chunk_case(0), // one byte per read
+        1 => tape_chunk_case(1), // split inside the first length word
+        2 => tape_chunk_case(2),
+        3 => tape_chunk_case(3), // split inside block 1
+        4 => tape_chunk_case(4),
+        5 => tape_chunk_case(5), // split inside the second length word
+        _ => tape_chunk_case(6),
     }
 }
 
-fn tape_chunk_case(boundary: usize, whole_tape: bool) {
-    let (b0, b1, c0): (u8, u8, u8) = (kani::any(), kani::any(), kani::any());
+fn chunky_tap(boundary: usize, b0: u8, b1: u8, c0: u8) -> Tap<ChunkyTape> {
     let asset = ChunkyTape { data: [2, 0, b0, b1, 1, 0, c0, 0], len: 7, pos: 0, boundary };
-    let mut t = match Tap::from_asset(asset) {
+    match Tap::from_asset(asset) {
         Ok(t) => t,
         Err(_) => unreachable!(),
-    };
+    }
+}
+
+fn tape_chunk_first_block(boundary: usize) {
+    let (b0, b1, c0): (u8, u8, u8) = (kani::any(), kani::any(), kani::any());
+    let mut t = chunky_tap(boundary, b0, b1, c0);
     kani::assert(matches!(t.next_block(), Ok(true)), "c16.tape_chunks.first_block_found");
     kani::assert(matches!(t.next_block_byte(), Ok(Some(x)) if x == b0), "c16.tape_chunks.block1_byte0");
     kani::assert(matches!(t.next_block_byte(), Ok(Some(x)) if x == b1), "c16.tape_chunks.block1_byte1");
     kani::assert(matches!(t.next_block_byte(), Ok(None)), "c16.tape_chunks.block1_ends");
-    if !whole_tape {
-        kani::cover!(t.asset.pos >= 4, "first block consumed");
-        return;
-    }
+    kani::cover!(t.asset.pos >= 4, "first block consumed");
+}
+
+fn tape_chunk_case(boundary: usize) {
+    let (b0, b1, c0): (u8, u8, u8) = (kani::any(), kani::any(), kani::any());
+    let mut t = chunky_tap(boundary, b0, b1, c0);
+    kani::assert(matches!(t.next_block(), Ok(true)), "c16.tape_chunks.first_block_found");
+    kani::assert(matches!(t.next_block_byte(), Ok(Some(x)) if x == b0), "c16.tape_chunks.block1_byte0");
+    kani::assert(matches!(t.next_block_byte(), Ok(Some(x)) if x == b1), "c16.tape_chunks.block1_byte1");
+    kani::assert(matches!(t.next_block_byte(), Ok(None)), "c16.tape_chunks.block1_ends");
     kani::assert(matches!(t.next_block(), Ok(true)), "c16.tape_chunks.second_block_found");
     kani::assert(matches!(t.next_block_byte(), Ok(Some(x)) if x == c0), "c16.tape_chunks.block2_byte0");
     kani::assert(matches!(t.next_block_byte(), Ok(None)), "c16.tape_chunks.block2_ends");
